@@ -47,6 +47,18 @@ def gen_cases(tier, seed, ctx):
             tb = rnd.randbytes(rnd.choice([0, 1, 100, 32768, 32769, 70000])); ob = rnd.randbytes(rnd.choice([0, 60]))
             op = 'IOSEQ chunks_from_temp %s %s %s' % (rnd_sched(rnd, rnd.randrange(0, 9), ['eintr', 'eio', 'enospc']), hx(tb), hx(ob))
         cases.append(E.Case('i%d' % len(cases), op, dict(kind='ioseq-' + which)))
+    # ---- write_data under runs of consecutive short writes (two, three, four in a row; then healthy): the retry happens ONCE
+    for _ in range(60 if tier == 'quick' else 600):
+        d = rnd.randbytes(rnd.choice([5, 40, 300, 3000]))
+        nshort = rnd.choice([2, 2, 3, 4])
+        sch = ['s%d' % rnd.randrange(1, max(2, len(d) // (nshort + 1))) for _ in range(nshort)] + rnd.choice([[], ['ok'], ['eintr'], ['eio']])
+        fb = rnd.randbytes(rnd.choice([0, 3, 50])); pos = rnd.randrange(0, len(fb) + 5)
+        cases.append(E.Case('i%d' % len(cases), 'IOSEQ write_data %s %s %d %s' % (','.join(sch), hx(fb), pos, hx(d)), dict(kind='ioseq-write_data-shortrun')))
+    for _ in range(30 if tier == 'quick' else 300):
+        tb = rnd.randbytes(rnd.choice([100, 32768, 40000])); ob = rnd.randbytes(rnd.choice([0, 60]))
+        pre = ['ok'] * rnd.choice([1, 2])                # the seek (and a read) go through, then the write is short several times
+        sch = pre + ['s%d' % rnd.randrange(1, 30) for _ in range(rnd.choice([2, 3]))]
+        cases.append(E.Case('i%d' % len(cases), 'IOSEQ chunks_from_temp %s %s %s' % (','.join(sch), hx(tb), hx(ob)), dict(kind='ioseq-chunks_from_temp-shortrun')))
     # ---- whole scenarios, every k-th call failing once
     data = FG.text(rnd, 5000)
     good = Z.make([FG.text(rnd, 400), FG.text(rnd, 40000), FG.text(rnd, 90)], comp='zstd', zdict=FG.text(rnd, 80))
@@ -201,7 +213,7 @@ def nontrivial(r):
     return 'fired=0' not in r['impl']
 
 def run(tier, seed, replay=None):
-    rule = ("IOSEQ: read_data / write_data / chunks_from_temp called directly under random schedules of short counts, EINTR and hard errors, "
+    rule = ("IOSEQ: read_data / write_data / chunks_from_temp called directly under random schedules of short counts, EINTR and hard errors (plus runs of 2-4 consecutive short writes), "
             "compared with the Lean model of io.c; IOFAULT: whole scenarios (read a zstd+dict and an uncompressed file, validate good and "
             "damaged files, write with none/zstd/dictionary, copy chunks) with the k-th read/write/lseek call failing once, for EVERY k "
             "(sampled above 120 calls in quick) x {EIO, ENOSPC, EINTR, short counts}, judged against the fault-free result; non-trivial = a "
